@@ -9,7 +9,6 @@ package db
 import (
 	"errors"
 	"fmt"
-	"reflect"
 	"strings"
 
 	"github.com/alicebob/sqlittle/sql"
@@ -114,6 +113,7 @@ func newCreateTable(ct sql.CreateTableStmt) *Schema {
 				st.setPK([]IndexColumn{
 					{
 						Column:    c.Name,
+						Collate:   c.Collate,
 						SortOrder: c.PrimaryKeyDir,
 					},
 				})
@@ -127,6 +127,7 @@ func newCreateTable(ct sql.CreateTableStmt) *Schema {
 					[]IndexColumn{
 						{
 							Column:    c.Name,
+							Collate:   c.Collate,
 							SortOrder: c.PrimaryKeyDir,
 						},
 					},
@@ -142,6 +143,7 @@ func newCreateTable(ct sql.CreateTableStmt) *Schema {
 				[]IndexColumn{
 					{
 						Column:    c.Name,
+						Collate:   c.Collate,
 						SortOrder: sql.Asc,
 					},
 				},
@@ -225,11 +227,11 @@ func (st *Schema) toIndexColumns(ci []sql.IndexedColumn) []IndexColumn {
 // add an index. This is a noop if an equivalent index already exists. Returns
 // whether the indexed got added.
 func (st *Schema) addIndex(pk bool, name string, cols []IndexColumn) bool {
-	if reflect.DeepEqual(st.PK, cols) {
+	if sameIndexColumns(st.PK, cols) {
 		return false
 	}
 	for _, ind := range st.Indexes {
-		if reflect.DeepEqual(ind.Columns, cols) {
+		if sameIndexColumns(ind.Columns, cols) {
 			if pk {
 				st.PrimaryKey = ind.Index
 			}
@@ -250,13 +252,38 @@ func (st *Schema) addIndex(pk bool, name string, cols []IndexColumn) bool {
 func (st *Schema) setPK(cols []IndexColumn) {
 	st.PK = cols
 	for i, ind := range st.Indexes {
-		if reflect.DeepEqual(ind.Columns, cols) {
+		if sameIndexColumns(ind.Columns, cols) {
 			st.Indexes = append(st.Indexes[:i], st.Indexes[i+1:]...)
 			if len(st.Indexes) == 0 {
 				st.Indexes = nil // to make test diffs easier
 			}
+			break
 		}
 	}
+}
+
+// sameIndexColumns is how SQLite decides that a UNIQUE or PRIMARY KEY
+// constraint duplicates an existing one and needs no index of its own: the
+// same columns with the same collations. The sort order is not compared.
+func sameIndexColumns(a, b []IndexColumn) bool {
+	if len(a) != len(b) || len(a) == 0 {
+		return false
+	}
+	collate := func(c string) string {
+		c = strings.ToLower(c)
+		if c == "binary" {
+			return ""
+		}
+		return c
+	}
+	for i := range a {
+		if !strings.EqualFold(a[i].Column, b[i].Column) ||
+			a[i].Expression != b[i].Expression ||
+			collate(a[i].Collate) != collate(b[i].Collate) {
+			return false
+		}
+	}
+	return true
 }
 
 // Returns the index of the named column, or -1.
